@@ -60,8 +60,8 @@ inductive Op where
   | removeIdx (t : Loc) (i : Nat)
   | reset (t : Loc)
   | compress (t : Loc)
-  /-- `source.GroupBy(root dest, key)`; `patched` selects the repaired behaviour. -/
-  | groupBy (dest : Nat) (s : Loc) (k : Key) (patched : Bool)
+  /-- `source.GroupBy(root dest, key)`. -/
+  | groupBy (dest : Nat) (s : Loc) (k : Key)
   deriving Repr, Inhabited
 
 def envSet (env : Env) (r : Nat) (d : Doc) : Env := env.set r d
@@ -147,11 +147,11 @@ def step (fmtReal : Nat → List Nat) (op : Op) (env : Env) : Env × Bool :=
   | .removeIdx t i => (onTarget env t (removeIdx i), true)
   | .reset t => (onTarget env t (fun _ => undef), true)
   | .compress t => (onTarget env t compress, true)
-  | .groupBy dest s k patched =>
+  | .groupBy dest s k =>
       if dest = s.root then (env, true) else
       match getAt (envGet env s.root) s.path with
       | some x =>
-          let r := groupByA fmtReal env patched x k (envGet env dest)
+          let r := groupByA fmtReal env x k (envGet env dest)
           (envSet env dest r.2, r.1)
       | none => (env, true)
 
